@@ -9,7 +9,7 @@ Open Scope Z_scope.
 
 (* symbolic evaluation of a concrete program on abstract values: unfold the interpreter only *)
 Ltac pysimp :=
-  cbn [run mk_call find_def bind_params exec_block exec exec_atomic eval apply_global global_method obj_method obj_mutator is_procedure is_stateful log_effect dict_items mk_dict construct ctor_check ctor_default
+  cbn [run mk_call find_def bind_params exec_block exec exec_atomic eval apply_global global_method obj_method obj_mutator is_procedure is_stateful log_effect dict_items mk_dict path_steps mk_path construct ctor_check ctor_default
        fqual fkind_of fparams fbody class_of is_init
        get set mem_str path_eqb snoc as_int truthy b2z py_binop py_compare py_eq is_none
        py_getattr global_const ctor_table builtin str_method bind_names set_field exn_in bound_of py_slice
@@ -17,7 +17,7 @@ Ltac pysimp :=
        String.eqb Ascii.eqb Bool.eqb map fst snd forallb rev app andb orb negb].
 
 Ltac pysimp_in H :=
-  cbn [run mk_call find_def bind_params exec_block exec exec_atomic eval apply_global global_method obj_method obj_mutator is_procedure is_stateful log_effect dict_items mk_dict construct ctor_check ctor_default
+  cbn [run mk_call find_def bind_params exec_block exec exec_atomic eval apply_global global_method obj_method obj_mutator is_procedure is_stateful log_effect dict_items mk_dict path_steps mk_path construct ctor_check ctor_default
        fqual fkind_of fparams fbody class_of is_init
        get set mem_str path_eqb snoc as_int truthy b2z py_binop py_compare py_eq is_none
        py_getattr global_const ctor_table builtin str_method bind_names set_field exn_in bound_of py_slice
@@ -175,7 +175,7 @@ Ltac pystep :=
   pyunhide;
   lazymatch goal with
   | |- context[exec_block ?c ?f ?e (?s :: ?r)] =>
-    let t := eval cbn [exec_block exec exec_atomic eval apply_global global_method obj_method obj_mutator is_procedure is_stateful log_effect dict_items mk_dict construct ctor_check ctor_default is_init fqual
+    let t := eval cbn [exec_block exec exec_atomic eval apply_global global_method obj_method obj_mutator is_procedure is_stateful log_effect dict_items mk_dict path_steps mk_path construct ctor_check ctor_default is_init fqual
        get set mem_str path_eqb snoc as_int truthy b2z py_binop py_compare py_eq is_none
        py_getattr global_const ctor_table builtin str_method bind_names set_field exn_in bound_of py_slice
        slice_list
@@ -192,7 +192,7 @@ Ltac pystep :=
 
 (* expression-level evaluation only (does not run further statements) *)
 Ltac pyexpr :=
-  cbn [eval apply_global global_method obj_method obj_mutator is_procedure is_stateful log_effect dict_items mk_dict construct ctor_check ctor_default is_init fqual
+  cbn [eval apply_global global_method obj_method obj_mutator is_procedure is_stateful log_effect dict_items mk_dict path_steps mk_path construct ctor_check ctor_default is_init fqual
        get set mem_str path_eqb snoc as_int truthy b2z py_binop py_compare py_eq is_none
        py_getattr global_const ctor_table builtin str_method bind_names set_field exn_in bound_of py_slice
        slice_list
